@@ -69,6 +69,11 @@ def snapshot(v, memo):
         return r
     elif isinstance(v, tuple):
         r = tuple(snapshot(x, memo) for x in v)
+    elif isinstance(v, BoundMethod):
+        r = BoundMethod(None, v.name)
+        memo[i] = (r, v)
+        r.obj = snapshot(v.obj, memo)
+        return r
     elif isinstance(v, SCallable):
         r = SCallable(None)
         memo[i] = (r, v)
@@ -828,6 +833,8 @@ class Interp:
             dotted, orig = mod.imports[nm]
             if orig is None:
                 return Module(dotted)
+            if dotted == 'numpy':
+                return ModAttr(Module('numpy'), orig)
             rel = extract.module_relpath(dotted) if dotted else None
             if rel:
                 m2 = extract.load(rel, self.overrides.get(rel))
@@ -1515,6 +1522,8 @@ class Interp:
 
     def arr_getitem(self, a, idx):
         ctx = self.ctx
+        if isinstance(idx, ArrFlat) and idx.arr.ndim == 1:
+            idx = idx.arr
         if idx is Ellipsis:
             return a
         if isinstance(idx, tuple) and len(idx) == 1 and a.ndim == 1:
@@ -1866,6 +1875,8 @@ class Interp:
         for path in a.modifies:
             self.havoc_target(ast.parse(path, mode='eval').body, cenv)
         res = None
+        if a.returns_expr is not None:
+            res = self.eval(self.parse_clause(a.returns_expr), cenv)
         if a.returns is not None:
             from .verify import instantiate
             res = instantiate(self, a.returns, ctx.fresh_name('ret'), {}, self.sizes)
